@@ -1,6 +1,7 @@
 (* C03 - Exit status and threshold filtering.  Statements only. *)
 From Coq Require Import List NArith ZArith Bool String Arith.
 From Bandit Require Import Base.PyStr Engine.Types Engine.Tester Cli.Thresholds Proofs.C03_proofs.
+From Bandit Require Import Manager.BaselineFilter Cli.ExitBaseline Proofs.C07_proofs Proofs.C03b_proofs.
 Import ListNotations.
 
 Theorem C03_exit_iff : forall sev conf ez l,
@@ -53,3 +54,34 @@ Print Assumptions C03_count_spelling.
 Theorem C03_count_overflow : forall ranking k, List.length ranking <= k -> level_of_count ranking (S k) = None.
 Proof. exact count_out_of_range. Qed.
 Print Assumptions C03_count_overflow.
+
+(* ---- with a baseline (-b): the exit status is decided on the list the report is written from ---- *)
+Theorem C03_baseline_same_list : forall eqb thr ez baseline results,
+  fst (exit_status_b eqb thr ez baseline results) = Exit 1
+  <-> (listed (snd (exit_status_b eqb thr ez baseline results)) <> [] /\ ez = false).
+Proof. exact exit_b_same_list. Qed.
+Print Assumptions C03_baseline_same_list.
+
+Theorem C03_baseline_otherwise_zero : forall eqb thr ez baseline results,
+  fst (exit_status_b eqb thr ez baseline results) = Exit 1 \/ fst (exit_status_b eqb thr ez baseline results) = Exit 0.
+Proof. exact exit_b_otherwise_zero. Qed.
+Print Assumptions C03_baseline_otherwise_zero.
+
+Theorem C03_baseline_listed : forall eqb thr ez baseline results,
+  listed (snd (exit_status_b eqb thr ez baseline results)) =
+  match baseline with [] => filter thr results | _ => compare_baseline eqb baseline (filter thr results) end.
+Proof. exact exit_b_listed. Qed.
+Print Assumptions C03_baseline_listed.
+
+Theorem C03_baseline_accounted : forall thr ez baseline results,
+  baseline <> [] ->
+  (forall x, cnt x (filter thr results) <= cnt x baseline) ->
+  exit_status_b issue_eqb thr ez baseline results = (Exit 0, WithCandidates []).
+Proof. exact exit_b_accounted. Qed.
+Print Assumptions C03_baseline_accounted.
+
+Theorem C03_baseline_new_identity : forall thr baseline results a,
+  In a results -> thr a = true -> cnt a baseline = 0 ->
+  fst (exit_status_b issue_eqb thr false baseline results) = Exit 1.
+Proof. exact exit_b_new_identity. Qed.
+Print Assumptions C03_baseline_new_identity.
